@@ -686,6 +686,22 @@ func walMutations(w []byte, ps int) []mutation {
 		d[i] = 0
 	}
 	add("hdr-zeroed", "WAL header zeroed", d)
+	// A header that carries another page size *and* a checksum that matches it (SQLite accepts powers of two from
+	// 512 to 65536 only; anything else means "no valid header").
+	if len(w) >= 32 {
+		for _, v := range []uint32{0, 12, 100, 511, 513, 1 << 17, 0xfffffff8, uint32(ps) * 2, uint32(ps) / 2} {
+			d := append([]byte(nil), w...)
+			binary.BigEndian.PutUint32(d[8:], v)
+			var bo binary.ByteOrder = binary.LittleEndian
+			if binary.BigEndian.Uint32(d[0:])&1 == 1 {
+				bo = binary.BigEndian
+			}
+			c0, c1 := pager.WALChecksum(bo, 0, 0, d[:24])
+			binary.BigEndian.PutUint32(d[24:], c0)
+			binary.BigEndian.PutUint32(d[28:], c1)
+			add("hdr-pagesize-cksum", fmt.Sprintf("WAL header page size := %d with a matching header checksum", v), d)
+		}
+	}
 	return out
 }
 
